@@ -10,7 +10,7 @@ T = alphabets.T
 
 # ---- (b) a slice object held across two calls ------------------------------------------------------------------
 SLICE_OPS = ['remove', 'fill_to', 'fill_to_fail', 'transfer_in', 'transfer_out', 'transfer_in_fail', 'get_volumes',
-             'to_other_plate', 'from_other_plate']
+             'to_other_plate', 'from_other_plate', 'to_many']
 
 
 def _slice_call(pp, subs, world, sl, op):
@@ -30,8 +30,10 @@ def _slice_call(pp, subs, world, sl, op):
         return pp.Plate.transfer(sl, world['Q'][1, 1], '2 uL')       # the held slice as the SOURCE of a plate-to-plate transfer
     if op == 'from_other_plate':
         return pp.Plate.transfer(world['Q'][2, 2], sl, '1 uL')       # ... and as its destination (Q is loaded by the seed)
+    if op == 'to_many':
+        return pp.Plate.transfer(sl, world['Q'][1], '2 uL')          # the held slice as the ONE side of a one-to-many transfer
     if op == 'get_volumes':
-        return sl.get_volumes()
+        return (sl.get_volumes(), sl.shape, sl.size)                 # looking at a slice (and its cached geometry)
     raise env.InternalError(op)
 
 
@@ -84,7 +86,11 @@ def _held_slice_case(item):
     except Exception as e:  # noqa
         want = 'raises ' + type(e).__name__
     outcomes.append('same' if got == want else 'differs')
-    if got != want:
+    if e1.exact_world(world) != fp_world:
+        vs.append(V(f"PlateSlicer.{op2.split('_fail')[0]} | argument-mutated | plate,second-use-after={op1.split('_fail')[0]}",
+                    f"s = P[{sel}]; after {op1} through s, {op2} through the same s modified the plate (or another argument) in "
+                    f"place", case))
+    elif got != want:
         vs.append(V(f"PlateSlicer.{op2.split('_fail')[0]} | earlier-result-mutated | reused-slice-after={op1.split('_fail')[0]}",
                     f"s = P[{sel}]; after {op1} through s, {op2} through the same s differs from {op2} on a fresh slice",
                     case, want, got))
@@ -242,6 +248,8 @@ def run(col):
     col.assumptions += ["instruction text is part of the fingerprint; numpy arrays are compared element-wise via the wells"]
     vals = [col.seed % 3] if col.tier == 'quick' else [0, 1, 2]
     for v in vals:
+        e1.Explorer(pp, v, e1.W_DEFAULT, e1.seed_history_P() + [alphabets.T('A', 'Q', '30 uL')], alphabets.geometry_sweep()[::2], MONS,
+                    'G/S0/repeat', track_path=True, repeat=True).run(1, col)
         held_slices(col, pp, v)
         refused_bakes(col, pp, v, 2 if col.tier == 'quick' else 3)
         recipes(col, pp, v)
